@@ -1,8 +1,11 @@
 import Driver.Hist
+import Driver.File
 import Std.Data.HashMap
 open Driver
 
 abbrev Counts := Std.HashMap String Nat
+
+def keepSnaps : Bool := false
 
 def outcomeClass (got : String) : String :=
   if got.startsWith "err:" || got.startsWith "panic:" then (got.take 32).toString
@@ -34,6 +37,22 @@ partial def histLoop (h : IO.FS.Stream) (st : St) (cur : String) (lineNo : Nat) 
   else
     let r := stepOp st f
     let cnt := bump cnt (f.headD "?" ++ "/" ++ outcomeClass got)
+    if f.head? == some "file" then
+      -- `file => <path>`: decode the real bytes, check well-formedness and accounting, compare contents
+      let pagesize := st.pagesize
+      let rep ← checkPath got pagesize
+      if !keepSnaps then (try IO.FS.removeFile got catch _ => pure ())
+      let want := dumpBucket st.committed [] true
+      if !rep.ok then
+        IO.println s!"RESULT {cur} FILEBAD line={lineNo} op=[{lhs}] detail=[{rep.msg}] numPages={rep.numPages} txId={rep.txId}"
+        histLoop h r.st cur (lineNo + 1) nOps true nHist (nBad + 1) cnt
+      else if rep.dump != want then
+        IO.println s!"RESULT {cur} FILEDIFF line={lineNo} op=[{lhs}] expected=[{want}] got=[{rep.dump}]"
+        histLoop h r.st cur (lineNo + 1) nOps true nHist (nBad + 1) cnt
+      else
+        IO.println s!"FILE {cur} line={lineNo} numPages={rep.numPages} txId={rep.txId} free={rep.free} reach={rep.reach} size={rep.fileSize}"
+        histLoop h r.st cur (lineNo + 1) (nOps + 1) false nHist nBad (bump cnt "file/ok")
+    else
     if r.allowed.isEmpty || r.allowed.contains got then
       histLoop h r.st cur (lineNo + 1) (nOps + 1) false nHist nBad cnt
     else
